@@ -50,7 +50,8 @@ def run_case(case):
         n = int(rng.integers(1, 9)) if basis == "ising" else int(rng.integers(2, 7))
         slm = bool(rng.random() < 0.5 and n >= 2)
         spec = seqgen.random_spec(rng, n=n, basis=basis, dmin=float(rng.uniform(4.5, 9)), slm=slm, max_dur=80, min_dur=8, n_pulses=int(rng.integers(1, 4)),
-                                  wf_kinds=["const", "ramp"], shuffle_ids=bool(rng.random() < 0.5), local=bool(basis == "ising" and rng.random() < 0.2))
+                                  wf_kinds=["const", "ramp"], shuffle_ids=bool(rng.random() < 0.5), local=bool(basis == "ising" and rng.random() < 0.2),
+                                  lead_delay=int(rng.choice([0, 0, 16, 40])))
         if basis == "xy" and spec.get("mag") is None and rng.random() < 0.5:
             spec["mag"] = [float(x) for x in rng.uniform(-3, 3, size=3)]
         seq = seqgen.build(spec)
@@ -134,9 +135,11 @@ def run_case(case):
                 masked[j, :] = 0
                 masked[:, j] = 0
         slm_end = float(seq._slm_mask_time[1]) if len(seq._slm_mask_time) > 1 else 0.0
+        slm_on = float(seq._slm_mask_time[0]) if len(seq._slm_mask_time) > 1 else 0.0
         if slm_ids:
             cnt["slm_cases"] += 1
-        qts = sorted({0.0, 1e-9, max(0.0, slm_end - 1e-9), slm_end, slm_end + 1e-9, 0.5 * duration, duration - 1e-9, duration, max(0.0, slm_end - 0.5), slm_end + 0.5})
+        qts = sorted({0.0, 1e-9, max(0.0, slm_end - 1e-9), slm_end, slm_end + 1e-9, 0.5 * duration, duration - 1e-9, duration, max(0.0, slm_end - 0.5), slm_end + 0.5,
+                      slm_on, 0.5 * (slm_on + slm_end), max(0.0, slm_end - slm_on), max(0.0, slm_end - slm_on - 1e-9), 0.5 * slm_on})
         for t in qts:
             if t < 0 or t > duration:
                 continue
